@@ -314,7 +314,19 @@ def rule_validate(r):
     r.check("partable.check_angles(strict=True)" in pf.unparse(pt), MI, "make_parameter_table", "check_angles(strict=True) on model tables", pt.lineno)
 
 
+def rule_driver(r):
+    """The compiled path walks the same mesh as the Python loop `for loop_index in range(num_eval)`: the driver's
+    chunks tile [0, num_eval) exactly (shared with C01 R-C01-chunk)."""
+    from .c01 import rule_chunk
+    rule_chunk(r)
+    lp = pf.lib("kernelpy").func("_loops")
+    loops = [s_ for s_ in pf.walk_stmts(lp) if isinstance(s_, ast.For) and pf.unparse(s_.iter) == "range(call_details.num_eval)"]
+    r.check(bool(loops), KP, "_loops", "for loop_index in range(call_details.num_eval)", loops[0].lineno if loops else lp.lineno,
+            "python visits every mesh point exactly once")
+
+
 RULES = [
+    ("R-C09-driver", 13, "both paths visit every mesh point exactly once", rule_driver),
     ("R-C09-result-layout", 125, "result layout three ways", make_c_rule("R-C09-result-layout", py_layout)),
     ("R-C09-volume-order", 65, "volume tuple order", make_c_rule("R-C09-volume-order", py_volume)),
     ("R-C09-gate", 8, "python gate = C gate", rule_gate),
